@@ -20,9 +20,10 @@ import (
 )
 
 type replayCase struct {
-	Kind   string     `json:"kind"`
-	Select *selCase   `json:"select,omitempty"`
-	Retry  *retryCase `json:"retry,omitempty"`
+	Kind    string       `json:"kind"`
+	Select  *selCase     `json:"select,omitempty"`
+	Retry   *retryCase   `json:"retry,omitempty"`
+	Recover *recoverCase `json:"recover,omitempty"`
 }
 
 func TestC05(t *testing.T) {
@@ -30,6 +31,7 @@ func TestC05(t *testing.T) {
 	res := hx.NewResult("TestC05", "select: one case = one pool (n backends x 5 situations x max_conns) from LoadBalance.tla asked through every concrete policy "+
 		"(first, round_robin, least_conn, random, default, ip_hash, uri_hash, header x2, header without value) with keys for every hash residue / every robin position; "+
 		"retry: one case = one finished behaviour of LBRetry.tla (pool, initial situations, reliable set, fault pattern) replayed through Proxy.ServeHTTP; "+
+		"recovery: fail/recover rounds with a short fail_timeout (LBRetry.tla!FailsAccounted: every counted failure expires; then a healthy backend answers); "+
 		"non-trivial = distinct (policy, pool availability, residue) resp. distinct retry behaviour with at least one failing attempt or unavailable backend")
 	defer res.Write(t)
 
@@ -40,6 +42,7 @@ func TestC05(t *testing.T) {
 	runSelect(t, res)
 	runNoName(t, res)
 	runRetryAll(t, res)
+	runRecoverAll(res)
 	res.Replayed = res.Evaluations
 }
 
@@ -374,6 +377,12 @@ func replayOne(t *testing.T, res *hx.Result, rc *replayCase) {
 				confirmRetry(res, env, c, v)
 			}
 		}
+	case "recover":
+		if rc.Recover == nil {
+			res.Infra = "replay file has no recovery scenario"
+			return
+		}
+		reportRecover(res, rc.Recover)
 	default:
 		b, _ := json.Marshal(rc)
 		res.Infra = "replay: unknown case kind in " + string(b)
